@@ -53,17 +53,20 @@ Record cfg := {
   cache : bool; ffm : bool; mis : action; dup : action; has_ign : bool;
   sid : vcfg; vars : list vcfg }.
 
+(* linear-time reversal (List.rev is quadratic when extracted) *)
+Definition rv (l : str) : str := rev_append l [].
+
 (* ---- reading the file: newline="" keeps "\n", "\r", "\r\n" as line ends ---- *)
 Fixpoint raw_lines (s : str) (cur : str) : list str :=      (* cur: reversed current line *)
   match s with
-  | [] => match cur with [] => [] | _ => [rev cur] end
+  | [] => match cur with [] => [] | _ => [rv cur] end
   | c :: r =>
-      if c =? 10 then rev (c :: cur) :: raw_lines r []
+      if c =? 10 then rv (c :: cur) :: raw_lines r []
       else if c =? 13 then
         match r with
-        | d :: r' => if d =? 10 then rev (d :: c :: cur) :: raw_lines r' []
-                     else rev (c :: cur) :: raw_lines r []
-        | [] => rev (c :: cur) :: raw_lines r []
+        | d :: r' => if d =? 10 then rv (d :: c :: cur) :: raw_lines r' []
+                     else rv (c :: cur) :: raw_lines r []
+        | [] => rv (c :: cur) :: raw_lines r []
         end
       else raw_lines r (c :: cur)
   end.
@@ -73,7 +76,7 @@ Fixpoint drop_eol_rev (l : str) : str :=
   | c :: r => if (c =? 10) || (c =? 13) then drop_eol_rev r else l
   | [] => []
   end.
-Definition strip_eol (l : str) : str := rev (drop_eol_rev (rev l)).
+Definition strip_eol (l : str) : str := rv (drop_eol_rev (rv l)).
 Definition file_lines (s : str) : list str := map strip_eol (raw_lines s []).
 
 (* ---- _process_variable ---- *)
@@ -108,8 +111,8 @@ Fixpoint kset (k : str) (t : tree) (l : kids) : kids :=
 (* key.split(":") *)
 Fixpoint split_colon (s : str) (cur : str) : list str :=
   match s with
-  | [] => [rev cur]
-  | c :: r => if c =? 58 then rev cur :: split_colon r [] else split_colon r (c :: cur)
+  | [] => [rv cur]
+  | c :: r => if c =? 58 then rv cur :: split_colon r [] else split_colon r (c :: cur)
   end.
 (* for kc in comps[:-1]: target = target.setdefault(kc, {});  target[comps[-1]] = value.
    Item assignment on a str/int/None/list value raises TypeError, .setdefault on one AttributeError. *)
